@@ -6,18 +6,19 @@
 # With IN_REPO=1 the patch is applied to /repo itself (git apply) and undone afterwards.
 set -u
 P="$1"; PROP="$2"; TIER="${3:-quick}"
+VERIF="$(cd "$(dirname "$0")/.." && pwd)"
 if [ "${IN_REPO:-0}" = 1 ]; then
   cd /repo || exit 2
   git diff --quiet || { echo "try_mutant: /repo is not clean" >&2; exit 2; }
   git apply "$P" || { echo "try_mutant: patch does not apply" >&2; exit 2; }
-  (cd /verif && DSIM_KEEP_EVIDENCE=1 ./run.sh check "$PROP" "$TIER"); rc=$?
+  (cd "$VERIF" && DSIM_KEEP_EVIDENCE=1 ./run.sh check "$PROP" "$TIER"); rc=$?
   git -C /repo checkout -- .
   git -C /repo clean -fdq
 else
   W=$(mktemp -d "${TMPDIR:-/tmp}/mutrepo-XXXXXX")
   rsync -a --exclude .git /repo/ "$W/" || exit 2
   (cd "$W" && git init -q . >/dev/null 2>&1; git apply "$P") || { echo "try_mutant: patch does not apply" >&2; rm -rf "$W"; exit 2; }
-  (cd /verif && DSIM_REPO="$W" DSIM_KEEP_EVIDENCE=1 ./run.sh check "$PROP" "$TIER"); rc=$?
+  (cd "$VERIF" && DSIM_REPO="$W" DSIM_KEEP_EVIDENCE=1 ./run.sh check "$PROP" "$TIER"); rc=$?
   rm -rf "$W"
 fi
 echo "try_mutant: $(basename "$(dirname "$P")")/$(basename "$P") $PROP $TIER -> exit $rc"
